@@ -20,7 +20,7 @@ RULES = [
     Rule('C15.R3', 'reader/writer layout tables, codec pairs, flag bits and string terminators agree', 40),
     Rule('C15.R5', 'a version number read from the file is accepted only inside [2, latest]: versions below 2 have the older layout and no version field', 2),
     Rule('C15.R6', 'WOPN_parseInstrument assigns every field of the instrument on every path: the loaded value is a function of the file alone', 8),
-    Rule('C15.R4', 'the placeholder bank created for a zero bank count is the one that is marked blank', 2),
+    Rule('C15.R4', 'the placeholder bank created for a zero bank count is the one that is marked blank, and carries no marker in a version-1 value', 4),
 ]
 EXPLANATION = ('Byte-budget abstract interpretation (engine E1) of the structured bodies of WOPN_SaveBankToMem, WOPN_SaveInstToMem and '
                'WOPN_writeInstrument in the (cursor, length) dialect: budgets are polynomials over the unknown bank counts, counted loops are summarised, '
@@ -390,6 +390,7 @@ def analyse(facts, tier):
     # header flag byte and bank meta: masks/shifts and relative offsets agree between loader and saver
     obls += header_agreement(facts)
     obls += r4_init(facts)
+    obls += r4b_v1_placeholder(facts)
     obls += r5_version_window(facts)
     obls += r6_parser_total(facts)
     obls += r3_blank_encoding(facts)
@@ -506,6 +507,67 @@ def r4_init(facts):
         out.append(Obl('C15.R4', fn.name, 'placeholder %s marked blank under %s == 0' % (arr, short(gp['n']) if gp else '?'), loc, 'discharged' if ok else 'finding',
                        why='%s is allocated from %s, which is derived from %s' % (arr, array_of.get(arr), short(gp['n'])) if ok else
                        'the instruments marked blank under `%s == 0` belong to %s, which is not the array allocated for that count: the real placeholder bank stays unmarked and does not survive save + load' % (short(gp['n']) if gp else '?', arr)))
+    return out
+
+
+def r4b_v1_placeholder(facts):
+    """Version 1 has no carrier for the blank marker (version 2 writes it as null delays): every instrument parsed from a version-1
+    file has the marker cleared, and a value of version 1 that carries one does not survive save + load.  WOPN_Init() marks the
+    place-holder bank of a zero count blank whatever the version, so the bank loader must clear `inst_flags` of the place holders
+    under a condition that holds for every version below 2 - for both bank kinds (the local array of bank arrays it fills from
+    banks_melodic and banks_percussive, or the two members themselves)."""
+    out = []
+    fn = facts.fn('WOPN_LoadBankFromMem')
+    if not any(short(callee_name(x)) == 'WOPN_Init' for x in calls_in(fn.tree)):
+        raise build.AnalysisBroken('C15.R4: the loader no longer creates its value with WOPN_Init')
+    ver = None
+    for b, j, st in fn.cfg.stmts():
+        for x in walk(st['s']):
+            ap = assign_parts(x)
+            if ap and strip(ap[0]).get('k') == 'MemberExpr' and short(strip(ap[0])['n']) == 'version' and strip(ap[1]).get('k') == 'DeclRefExpr':
+                ver = strip(ap[1])['id']
+    if ver is None:
+        raise build.AnalysisBroken('C15.R4: the version local of the bank loader (stored into <file>.version) not found')
+    # which bank arrays a local array of arrays holds
+    holds = {}
+    for b, j, st in fn.cfg.stmts():
+        for x in walk(st['s']):
+            ap = assign_parts(x)
+            if ap and strip(ap[0]).get('k') == 'ArraySubscriptExpr' and strip(strip(ap[0])['b']).get('k') == 'DeclRefExpr':
+                for y in walk(ap[1]):
+                    if y.get('k') == 'MemberExpr' and short(y['n']) in ('banks_melodic', 'banks_percussive'):
+                        holds.setdefault(strip(strip(ap[0])['b'])['id'], set()).add(short(y['n']))
+    cleared = set()
+    loc = fn.loc
+    for b, j, st in fn.cfg.stmts():
+        for x in walk(st['s']):
+            ap = assign_parts(x)
+            if not (ap and strip(ap[0]).get('k') == 'MemberExpr' and short(strip(ap[0])['n']) == 'inst_flags'):
+                continue
+            clears = (ap[2] == '=' and const_of(ap[1]) == 0) or ap[2] == '&='
+            if not clears:
+                continue
+            gf = guard_facts(fn, b, st, loops=False)
+            below2 = False
+            for f in gf:
+                n_ = cmp_norm(f) if f[0] == 'cmp' else None
+                if n_ and strip(n_[1]).get('id') == ver and ((n_[0] == '<' and n_[2] >= 2) or (n_[0] == '<=' and n_[2] >= 1) or (n_[0] == '==' and n_[2] in (0, 1))):
+                    below2 = n_[0] != '==' or below2
+                    if n_[0] in ('<', '<='):
+                        below2 = True
+            if not below2:
+                continue
+            loc = st['loc']
+            for y in walk(ap[0]):
+                if y.get('k') == 'MemberExpr' and short(y['n']) in ('banks_melodic', 'banks_percussive'):
+                    cleared.add(short(y['n']))
+                if y.get('k') == 'DeclRefExpr' and y.get('id') in holds:
+                    cleared |= holds[y['id']]
+    for arr in ('banks_melodic', 'banks_percussive'):
+        ok = arr in cleared
+        out.append(Obl('C15.R4', fn.name, 'version-1 place holder of %s carries no blank marker' % arr, loc, 'discharged' if ok else 'finding',
+                       why='inst_flags cleared under version < 2' if ok else
+                       'a version-1 file with a zero bank count loads with a place-holder bank flagged blank (WOPN_Init), a flag version 1 cannot carry: saving the loaded value and loading the result gives a different value'))
     return out
 
 
